@@ -301,7 +301,9 @@ class Executor(Generic[TContext]):
         self.pending_incremental_futures = set()
         self.background_futures = set()
         self.async_work_finished_hook_task = None
-        self._relevant_sub_fields: dict[tuple, CollectedFields] = {}
+        self._relevant_sub_fields: dict[
+            tuple, tuple[CollectedFields, FieldDetailsList]
+        ] = {}
         self._stream_usages: RefMap[FieldDetailsList, StreamUsage] = RefMap()
 
     @classmethod
@@ -429,6 +431,8 @@ class Executor(Generic[TContext]):
         executor = copy(self)
         executor.root_value = payload
         executor.collected_errors = CollectedErrors()
+        # the field details of each event are new objects, nothing can be reused
+        executor._relevant_sub_fields = {}  # noqa: SLF001
         return executor
 
     def execute_operation(
@@ -1825,8 +1829,8 @@ class Executor(Generic[TContext]):
             if len(field_details_list) == 1  # optimize most frequent case
             else (return_type, *map(id, field_details_list))
         )
-        collected_fields: CollectedFields | None = relevant_sub_fields.get(key)
-        if collected_fields is None:
+        cached = relevant_sub_fields.get(key)
+        if cached is None:
             collected_fields = collect_subfields(
                 self.schema,
                 self.fragments,
@@ -1836,7 +1840,11 @@ class Executor(Generic[TContext]):
                 field_details_list,
                 self.hide_suggestions,
             )
-            relevant_sub_fields[key] = collected_fields
+            # The field details must be kept alive together with the cache entry,
+            # since otherwise their ids could be reused by other field details.
+            relevant_sub_fields[key] = (collected_fields, field_details_list)
+        else:
+            collected_fields = cached[0]
         return collected_fields
 
 
